@@ -81,9 +81,9 @@ func mk(name, pkg, fn string, params map[string]int, mod func(*Bounds)) *Job {
 func init() {
 	registry["C18"] = func(tier string) []*Job {
 		var js []*Job
-		words := []int{8, 16}
+		words := []int{8}
 		if tier == "thorough" {
-			words = []int{8, 16, 32, 64}
+			words = []int{8, 16, 32}
 		}
 		for _, w := range words {
 			j := mk(sprintf("c18.increment.w%d", w), rootPkg, "ZZ_C18_Increment", map[string]int{"words": w, "canary": 0}, nil)
